@@ -700,12 +700,12 @@ theorem helperImpls_inherent_rows_em {idx : Nat} {g : T × ABG × List Blk} {hs 
     have hf' : helperImpl idx (some p0) g.2.1.idents row b.item = some h := hf
     obtain ⟨x, a', d, u, g', tr, s', items, hsid, _, hh'⟩ := helperImpl_inherent_inv_inh hl0 hf'
     subst hsid
-    rw [hh', ← hp0]
+    rw [hh']
     have hname : selfName_em g = x := by
       simp [selfName_em, hfi, hs', lastSegIdentOf, hl]
     have hargs : selfArgs_em g = inhArgs_inh gen := by simp [selfArgs_em, hfi, hgen]
-    rw [hname, hargs, initSegsOf_pathNode_inh, pathLead_pathNode_inh]
-    have := xsegArgs_named_inh (pathLead p) (initSegsOf p) (genIdentStr x idx) (rowArgs g.2.1.idents row ++ inhArgs_inh gen)
+    rw [hname, hargs]
+    have := xsegArgs_single_inh noLead (genIdentStr x idx) (rowArgs g.2.1.idents row ++ inhArgs_inh gen)
     simp only [implTraitName_em, implTraitArgs_em, traitPathOf_impl_inh]
     exact ⟨this.2, this.1⟩
 
@@ -839,9 +839,9 @@ theorem helperTraitOfInherent_name_em {g : T × ABG × List Blk} {idx nkeys : Na
     split at h
     · next x its hx _ =>
       cases h
-      obtain ⟨a', rfl⟩ := selfTraitIdent_inv_inh hx
+      obtain ⟨sp, a', rfl, hlast⟩ := selfTraitIdent_inv_inh hx
       have : selfName_em g = x := by
-        simp [selfName_em, hitem, implSelfTy, lastSegIdentOf, lastSegOf, pathSegments, pathNode, tList, noLead]
+        simp [selfName_em, hitem, implSelfTy, lastSegIdentOf, hlast]
       rw [this]
       simp [traitIdent, tIdent, genIdentStr, genIdent]
     · cases h
